@@ -16,6 +16,12 @@ from pjrpc.server import specs, utils
 FlaskDispatcher = pjrpc.server.Dispatcher[None]
 
 
+def _json_dumps(obj: Any, cls: Any = pjrpc.server.JSONEncoder, **kwargs: Any) -> str:
+    # flask json provider (flask >= 2.2) replaces the encoder ``default`` hook by its own one,
+    # so the pjrpc encoder hook is passed explicitly otherwise pjrpc objects can't be serialized
+    return flask.json.dumps(obj, default=cls().default, **kwargs)
+
+
 class JsonRPC:
     """
     `Flask <https://flask.palletsprojects.com/en/1.1.x/>`_ framework JSON-RPC extension class.
@@ -38,7 +44,7 @@ class JsonRPC:
         self._status_by_error = status_by_error
 
         kwargs.setdefault('json_loader', flask.json.loads)
-        kwargs.setdefault('json_dumper', flask.json.dumps)
+        kwargs.setdefault('json_dumper', _json_dumps)
 
         self._dispatcher = FlaskDispatcher(**kwargs)
         self._endpoints: Dict[str, FlaskDispatcher] = {'': self._dispatcher}
